@@ -466,6 +466,18 @@ func TestVerif_C18(t *testing.T) {
 		}
 		c.Case(myIdx, func() interface{} { return k.String() }, func() { runC18(c, scratch, myIdx, k, 0) })
 	}
+	// reconnect while the previous connection's writer is still lagging
+	no := c.N(6, 60)
+	for s := int64(0); s < no; s++ {
+		myIdx := idx
+		idx++
+		if !c.Mine(myIdx) {
+			continue
+		}
+		c.Case(myIdx, func() interface{} {
+			return "reconnect while the previous connection's writer is stalled with a backlog"
+		}, func() { runC18Overlap(c, scratch, myIdx) })
+	}
 	// thorough: one trickle run crossing the one-minute file rotation
 	if c.Thorough() {
 		myIdx := idx
@@ -502,4 +514,138 @@ func TestVerif_C18Rotate(t *testing.T) {
 			runC18(c, scratch, idx, k, total)
 		})
 	}
+}
+
+// runC18Overlap: a camera reconnect while the previous connection's writer is still
+// lagging. handleConn returns as soon as its socket ends, without waiting for its
+// writer goroutine, so two writers (two output files) can be alive at once; each file
+// must still end up with exactly its own connection's frames.
+func runC18Overlap(c *vCtx, scratch string, idx int64) {
+	rng := c.RNG(idx)
+	salt := rng.U64()
+	type side struct {
+		dir   string
+		sent  [][]byte
+		size  int
+		count int
+	}
+	mk := func(size, count int) *side {
+		d, _ := ioutil.TempDir(scratch, "c18o-")
+		return &side{dir: d, size: size, count: count}
+	}
+	A, B := mk(rng.PickInt(16, 1000), rng.Range(40, 300)), mk(rng.PickInt(16, 1000), rng.Range(10, 200))
+	defer os.RemoveAll(A.dir)
+	defer os.RemoveAll(B.dir)
+	frameLogIntervalFirstMin, frameLogInterval = 15, 60*5
+	var mu sync.Mutex
+	stallAfter := rng.Range(1, 20)
+	dequeued := 0
+	stalled := false
+	release := make(chan struct{})
+	exits := 0
+	VerifHook = func(name string) {
+		mu.Lock()
+		switch name {
+		case "w.frame.dequeued":
+			dequeued++
+			if !stalled && dequeued == stallAfter {
+				// the first connection's writer falls behind here and stays behind
+				stalled = true
+				mu.Unlock()
+				<-release
+				return
+			}
+		case "w.writer.exited":
+			exits++
+		}
+		mu.Unlock()
+	}
+	defer func() { VerifHook = nil }()
+	serve := func(sd *side, saltK uint64) error {
+		conf := &Config{DeviceID: 99, DeviceName: "verif-writer", OutputDir: sd.dir}
+		a, b := net.Pipe()
+		done := make(chan error, 1)
+		go func() {
+			defer b.Close()
+			defer func() {
+				if p := recover(); p != nil {
+					done <- fmt.Errorf("PANIC: %v", p)
+				}
+			}()
+			done <- handleConn(b, conf, false)
+		}()
+		if _, err := a.Write(headerFor(sd.size)); err != nil {
+			return err
+		}
+		for i := 0; i < sd.count; i++ {
+			p := framePayload(i, sd.size, salt^saltK)
+			sd.sent = append(sd.sent, p)
+			if _, err := a.Write(p); err != nil {
+				return err
+			}
+		}
+		a.Close()
+		select {
+		case err := <-done:
+			if err != io.EOF {
+				return fmt.Errorf("handleConn returned %v", err)
+			}
+		case <-time.After(60 * time.Second):
+			return fmt.Errorf("handleConn did not return")
+		}
+		return nil
+	}
+	if err := serve(A, 1); err != nil {
+		close(release)
+		c.Violation("connection-ended-abnormally", "overlapping connections", "first connection: "+err.Error())
+		return
+	}
+	// the camera reconnects at once; the first writer is still stalled with a backlog
+	time.Sleep(1100 * time.Millisecond) // file names have 1 s resolution even across directories? (different dirs; kept for safety)
+	if err := serve(B, 2); err != nil {
+		close(release)
+		c.Violation("connection-ended-abnormally", "overlapping connections", "second connection: "+err.Error())
+		return
+	}
+	close(release)
+	ok := false
+	for i := 0; i < 6000; i++ {
+		mu.Lock()
+		ok = exits >= 2
+		mu.Unlock()
+		if ok {
+			break
+		}
+		time.Sleep(10 * time.Millisecond)
+	}
+	if !ok {
+		c.Violation("writer-stuck", "overlapping connections", "both writer goroutines should have exited after the stall was released")
+		return
+	}
+	for name, sd := range map[string]*side{"first": A, "second": B} {
+		names, _ := filepath.Glob(filepath.Join(sd.dir, "*.cptr"))
+		sort.Strings(names)
+		var stored [][]byte
+		for _, n := range names {
+			f, err := parseCPTR(n)
+			if err != nil {
+				c.Violation("malformed-cptr-file", "overlapping connections", fmt.Sprintf("%s connection, %s: %v", name, filepath.Base(n), err))
+				return
+			}
+			stored = append(stored, f.Frames...)
+		}
+		if len(stored) != len(sd.sent) {
+			c.Violation("frame-count", "overlapping connections", fmt.Sprintf("%s connection: %d frames sent, %d stored in %d file(s)", name, len(sd.sent), len(stored), len(names)))
+			return
+		}
+		for i := range sd.sent {
+			if string(stored[i]) != string(sd.sent[i]) {
+				c.Violation("frame-content", "overlapping connections", fmt.Sprintf("%s connection: stored frame %d differs from the frame sent", name, i))
+				return
+			}
+		}
+	}
+	c.Count("overlapping_connection_pairs", 1)
+	c.Count("frames_verified", int64(len(A.sent)+len(B.sent)))
+	c.Nontrivial(vNewHash().U64(uint64(idx)).Int(A.count).Int(B.count).Int(stallAfter).Sum())
 }
